@@ -8,7 +8,11 @@
 // counter that this history presented earlier: its id or its KES signature on
 // another payload, or the cold signature of its certificate with another KES
 // key / issue number / KES period. Genuine messages of one pool and counter
-// carry the same operational certificate (most histories), as a pool's do. After every
+// carry the same operational certificate (most histories), as a pool's do. Behind
+// every state-changing transition of the covers the row carries the PROBES of the
+// state reached (messages with a good id and certificate that leave it unchanged):
+// they are run behind that very history, so what the transition did to the hidden
+// state (counter floors, verifier, insecure flag) shows in their verdicts. After every
 // call accept/reject and IsSPOPoolRegistered of every pool are compared with the
 // spec's expectation carried by the row.
 package main
@@ -74,6 +78,8 @@ type row struct {
 	Init  initCfg `json:"init"`
 	Steps []entry `json:"steps"`
 	Fan   []entry `json:"fan"`
+	Probe []entry `json:"probe,omitempty"` // cover mode: the probes of the state the last step leads to
+	Churn bool    `json:"churn,omitempty"` // hist / chain mode: the spec's mark "accepted / Unreg / Reg / lower counter"
 	Rseed *int64  `json:"rseed,omitempty"`
 }
 
@@ -643,6 +649,15 @@ func runRow(rep *vh.Reporter, u *universe, r *row, rseed int64) {
 			w.do(en)
 		}
 	}
+	// the probes of the state the history leads to: none changes the authenticator, so all run behind the same history
+	n := len(w.hist)
+	for _, en := range r.Probe {
+		if en.C.Op != "verify" || en.C.Rep != "" {
+			rep.Dead("probe %s is not a plain message", en.C)
+		}
+		w.hist = w.hist[:n]
+		w.do(en)
+	}
 }
 
 func rowSeed(seed int64, i int) int64 {
@@ -670,9 +685,13 @@ func main() {
 		rep.Dead("no behaviours")
 	}
 	pools := map[string]bool{}
-	calls, maxLen := 0, 0
+	calls, maxLen, churn, probes := 0, 0, 0, 0
 	for i := range rows {
-		for _, en := range append(append([]entry(nil), rows[i].Steps...), rows[i].Fan...) {
+		if rows[i].Churn {
+			churn++
+		}
+		probes += len(rows[i].Probe)
+		for _, en := range append(append(append([]entry(nil), rows[i].Steps...), rows[i].Fan...), rows[i].Probe...) {
 			if en.C.Pool != "" {
 				pools[en.C.Pool] = true
 			}
@@ -680,7 +699,7 @@ func main() {
 		for _, p := range rows[i].Init.Registered {
 			pools[p] = true
 		}
-		calls += len(rows[i].Steps) + len(rows[i].Fan)
+		calls += len(rows[i].Steps) + len(rows[i].Fan) + len(rows[i].Probe)
 		if len(rows[i].Steps) > maxLen {
 			maxLen = len(rows[i].Steps)
 		}
@@ -695,6 +714,8 @@ func main() {
 	rep.Extra["behaviours"] = len(rows)
 	rep.Extra["replayed_calls"] = calls
 	rep.Extra["longest_history"] = maxLen
+	rep.Extra["churn_histories"] = churn // histories the spec marked: accepted / Unreg(p) / Reg(p) / lower counter of p
+	rep.Extra["probe_calls"] = probes    // probes of the state behind a state-changing transition
 	rep.Extra["silent"] = "NewNoOpAuthenticator (validation explicitly disabled) and unsetting a verifier are outside the property; the counter cache is observed only through later verdicts"
 	for i := range rows {
 		if rows[i].Kind == "hist" && len(rows[i].Steps) >= 3 && len(rows[i].Steps) <= 6 {
